@@ -152,7 +152,9 @@ def gen_project(rng, kind="ok", pid="p"):
             dep = rng.choice(siblings)
             opt = ""
             if rng.random() < 0.3:
-                opt = f" {{ gapduration {rng.choice([1, 2, 24])}h }}"
+                # calendar gaps and working-time gaps, also with the same text (`1d` = 24 h for one, 8 working hours for the other):
+                # how a text is read must not depend on which project or edge was read before
+                opt = f" {{ {rng.choice(['gapduration', 'gapduration', 'gaplength'])} {rng.choice(['1h', '2h', '24h', '1d', '1d', '2d'])} }}"
             a.append(f"depends !{dep}{opt}")
         elif rng.random() < 0.1 and kind == "ok":
             a.append(f"start {_date_add(start, rng.randrange(0, 6))}")
